@@ -1,6 +1,7 @@
 import WowVerif.Model.Mpq
 import WowVerif.Model.C01Bet
 import WowVerif.Model.C01Het
+import WowVerif.Model.C01Header
 import WowVerif.Model.Dispatch18b
 namespace Wv.Drv
 open Wv Wv.Mpq
@@ -54,6 +55,7 @@ def c01 (codec : Codec) (toks : List String) : Option (Codec × String) :=
         match readTable a h.blockPos h.blockCount tableKeyBlock with
         | some bt => pure (codec, ";".intercalate (bt.map fun r => ",".intercalate (r.map toString)))
         | none => pure (codec, "err table")
+  | ["c01hdr", h] => do pure (codec, Hdr.show_ (Hdr.parse (← bytesOfHex h)))
   | ["c01het", hashes] => do
       -- the builder's extended hash table for files with these 64-bit name hashes: slot bytes and packed index array
       let hs ← (if hashes == "-" then some [] else (hashes.splitOn ",").mapM String.toNat?)
